@@ -538,4 +538,45 @@ def exact_comparison_rule(F, R):
                    "%s converts an exact operand to a double with %s before comparing it with a double, without a range test: "
                    "the conversion rounds large integers and most rationals, so the comparison is not the comparison of the "
                    "two values" % (fn.short(), what), fn.loc(), sample=True)
+    # the same clause wherever the numeric code compares floats: an integer of 64 bits or more that reaches one side of a float
+    # comparison through an `as f64` cast (and the other side is neither a constant nor the same value converted back: the
+    # integrality test `x as isize as f64 == x`)
+    m = 0
+    reach_y = shared.script_reach(F)
+    for name, fn in sorted(F.fns.items()):
+        if not re.search(r"^steel::(primitives::numbers|rvals|steel_vm::vm)(::|$)", name) or name in fns or name not in reach_y:
+            continue
+        fc = [(i, e) for i, _, e in fn.events("fcmp")]
+        if not fc:
+            continue
+        m += 1
+        casts = [(i, e) for i, _, e in fn.events("cast") if e[1] == "IntToFloat" and re.search(r"^(isize|i64|usize|u64|i128|u128)$", e[2])]
+        f2i = [x for _, _, e in fn.events("cast") if e[1] == "FloatToInt" for x in lib.TOK.findall(str(e[6]))]
+        back = lib.tainted_locals(fn, f2i) if f2i else set()
+        dom = fn.dominators()
+        for ci, ce in casts:
+            ops = lib.TOK.findall(str(ce[6]))
+            if not ops or any(x in back for x in ops):
+                continue
+            T = lib.tainted_locals(fn, ops)
+            for i, e in fc:
+                a_, b_ = str(e[5]), str(e[6])
+                ta = any(x in T for x in lib.TOK.findall(a_))
+                tb = any(x in T for x in lib.TOK.findall(b_))
+                if not (ta ^ tb) or a_.startswith("const") or b_.startswith("const"):
+                    continue
+                guarded = False
+                for sb in dom[ci]:
+                    blk = fn.blocks[sb]
+                    if sb != ci and blk["k"] == "switch" and blk["on"] == "bool":
+                        sides = [t for t in set(blk["s"]) if t == ci or ci in fn.reachable_from([t], avoid={sb})]
+                        if len(sides) == 1:
+                            guarded = True
+                R.inst("C10.y", "%s / an integer reaches a float comparison through `as f64` only where the conversion is exact" % fn.short(),
+                       guarded,
+                       "%s converts a machine integer with `as f64` (line %s) and compares the result with a double (line %s) without "
+                       "a range test: above 2^53 the conversion rounds, so an exact integer and a double that differ compare equal — "
+                       "(= 9007199254740993 9007199254740992.0) answers #true on this path while `<`, (apply = …), the constant "
+                       "folder and the other tier answer #false" % (fn.short(), ce[4], e[3]), fn.loc(e[3]), sample=True)
+    R.floor("C10.y", "functions of the numeric code that compare floats (population examined)", m, 10)
     R.inst("C10.y", "mixed exact / inexact comparison functions examined", len(fns) >= 2, "", "", sample={"functions": sorted(lib.short_name(x) for x in fns), "conversions": n})
